@@ -4,6 +4,15 @@ usage: seeded_meta.py <results dir> [<results dir> ...]   (later directories ove
 import json, os, re, sys
 
 WHAT = {
+ "r5-C01": "StudentT clamps the chi-squared draw at F::epsilon() (EPSILON-vs-MIN mix-up): the power-law tail beyond sqrt(nu/eps) becomes Gaussian; KS 4.6e-3 (f32 nu = 0.5) .. 4.6e-2 (f32 nu = 0.25), f64 only for nu <= 0.26, far tail only for f32 nu ~ 1",
+ "r5-C02": "Hypergeometric HIN loop rewritten as `for next in (x + 1)..x_max` (exclusive): the top value min(n1, k) of the internal variable can never be returned; TV = its probability (0.105 at (20,3,10), n/N for K = 1)",
+ "r5-C04": "Pert::with_mode checks the mode before the range: a NaN min or max with a finite mode returns ModeRange (documented condition false) instead of RangeTooSmall",
+ "r5-C07": "Frechet applies the scale inside the power through a cached scale^(-shape): overflow/underflow of that factor for shape * |log10 scale| large gives location or +inf for every draw, tens of eps of error in between",
+ "r5-C09": "WeightedTreeIndex::update overflow pre-check subtracts the subtree subtotal instead of the node's own weight: for an inner node with non-zero descendants and a total within the descendants' mass of MAX, Overflow is not reported and update panics half-way (integer weights)",
+ "r5-C11": "Dirichlet Gamma method draws entries <= 0.1 (in mixed vectors) as exp(-E / alpha) - the alpha -> 0 limit law, dropping the Gamma(alpha + 1) factor: marginal CDF of the small entries off by 5e-3 (alpha 0.01) .. 3.3e-2 (alpha 0.1)",
+ "r5-C12": "UnitCircle final transform rewritten in tangent half-angle form t = x2 / x1: [NaN, NaN] whenever the accepted x1 is exactly 0 (one adversarial word; 2^-23 per draw in f32)",
+ "r5-C14": "Binomial BTPE thread_local 'learned squeeze' (n, p, y, v) recorded also at the region-1 early exit where v was never compared with f(y): later equal-parameter samples accept proposals Step 5 would reject; values and RNG words depend on what was sampled before on the thread (first divergence after 40 .. 18000 calls)",
+ "r5-C15": "GammaRepr made serde(untagged) with the small-shape variant flattened: Small {inv_shape, scale, c, d} deserialises as Large {scale, c, d}; every Gamma / ChiSquared / StudentT / FisherF with shape in (0, 1) round-trips to a different distribution",
  "r4-C01a": "InverseGaussian 'degenerate quadratic' fast path returns mu when a = mu v^2/(2 lambda) < epsilon: atom at x = mean of mass 0.8 sqrt(2 eps shape/mean); f32 only in practice, KS 2e-4 sqrt(shape/mean) (1.3e-2 at IG(2, 8000))",
  "r4-C01b": "Beta BB early accept when z = u1^2 u2 < epsilon: the far w -> 0 tail of the proposal is accepted wholesale; f32: one tail (probability <= 1e-3) over-weighted by 2x .. 150x, sup CDF deviation 3e-4 .. 4.5e-4",
  "r4-C02a": "BTPE step 5.3 Stirling term uses f_m for x_m = m + 1/2: log-acceptance shifted by (frac(np+p) - 1/2) ln((m+1)/(y+1)) for 20 < |y-m| < npq/2 - 1; TV up to 6e-3 for npq of a few hundred, none at npq < 44 and 1/sqrt(m) decay for huge n",
